@@ -98,6 +98,11 @@ def cp_apr(  # noqa: PLR0913
         tmp.nnz == 0
     ), "Data tensor must be nonnegative for Poisson-based factorization"
 
+    # A sparse tensor without any stored entry has no subscript columns to index
+    # into: use the dense holder of the same (all-zero) counts.
+    if isinstance(input_tensor, ttb.sptensor) and input_tensor.nnz == 0:
+        input_tensor = input_tensor.to_tensor()
+
     # Set up an initial guess for the factor matrices.
     if isinstance(init, ttb.ktensor):
         # User provided an initial ktensor; validate it
